@@ -380,12 +380,15 @@ func (a *Actor) submit(t *rapid.T, kind string) {
 			gas = 21000
 			value = new(big.Int).Mul(GenesisAllocation, big.NewInt(2)) // more than anyone owns: rejected by the pool
 		}
-		tx, err := QuaiTx(from, nonce, &to, value, gas, gp, data, nil)
+		// the price varies between transactions so that blocks hold non-ETX transactions of
+		// different prices (the order rule of block processing)
+		txgp := new(big.Int).Mul(gp, big.NewInt(int64(rapid.SampledFrom([]int{1, 1, 1, 2, 3}).Draw(t, "pricemul"))))
+		tx, err := QuaiTx(from, nonce, &to, value, gas, txgp, data, nil)
 		if err != nil {
 			return
 		}
 		errs := a.Net.SubmitTxs(tx)
-		a.logf("tx %s from=%x nonce=%d value=%v gas=%d err=%v", kind, from.Addr.Bytes()[:3], nonce, value, gas, errs[0])
+		a.logf("tx %s from=%x nonce=%d value=%v gas=%d price=%v err=%v", kind, from.Addr.Bytes()[:3], nonce, value, gas, txgp, errs[0])
 		if errs[0] == nil {
 			a.label("tx_" + kind)
 		}
